@@ -362,6 +362,50 @@ theorem mem_put_replaces (cfg : Config) (s : State) (hi : MemCache.Inv s) (k : K
     rw [hl]
     cases short <;> rfl
 
+/-- **Lru / Fifo leave no choice** — why the model may PREDICT these victims instead of taking
+them from the implementation: in every reachable state (any history, cleanup ticks included) the
+`last` stamps and the `created` stamps of the stored entries are pairwise distinct (one clock
+tick per operation, one stamp written per operation — the harness makes the real clocks advance
+between operations), so every victim list the policy allows names exactly the keys the model
+computes, and the put leads to the same state and answer whichever allowed list (whichever
+DashMap iteration order) the implementation used. -/
+theorem mem_lru_fifo_victims_determined (cfg : Config) (hp : cfg.policy = .lru ∨ cfg.policy = .fifo)
+    (ops : List XOp) (k : Key) (v : Val) (short : Bool) (vs : List Key) :
+    let s := (xrun cfg xinit ops).s
+    victimsOk cfg.policy (tick s).store (evictN cfg (tick s)) vs = true →
+    (∀ key, key ∈ vs ↔ key ∈ autoVictims cfg s) ∧
+    step cfg s (.putTtl k v short vs) = step cfg s (.putTtl k v short (autoVictims cfg s)) ∧
+    step cfg s (.put k v vs) = step cfg s (.put k v (autoVictims cfg s)) := by
+  intro s hvs
+  have hi : MemCache.Inv (tick s) := MemCache.inv_tick (CacheExt.inv_xrun cfg ops xinit MemCache.inv_init)
+  have hst := CacheExt.stamped_tick (CacheExt.stamped_xrun cfg ops xinit CacheExt.stamped_init)
+  have hinj : ∀ a ∈ (tick s).store, ∀ b ∈ (tick s).store,
+      metric cfg.policy a.2 = metric cfg.policy b.2 → a.1 = b.1 := by
+    intro a ha b hb heq
+    rcases hp with h | h
+    · rw [h] at heq; exact ((hst a ha).2 b hb).1 heq
+    · rw [h] at heq; exact ((hst a ha).2 b hb).2 heq
+  have hauto : victimsOk cfg.policy (tick s).store (evictN cfg (tick s)) (autoVictims cfg s) = true :=
+    CacheExt.detVictims_ok _ _ _ hi.nodup
+  have hiff : ∀ key, key ∈ vs ↔ key ∈ autoVictims cfg s := fun key =>
+    ⟨CacheExt.victims_determined hinj hvs hauto key, CacheExt.victims_determined hinj hauto hvs key⟩
+  have hE := CacheExt.evictKeys_congr hi hiff
+  have hpre : preEvict cfg (tick s) vs = preEvict cfg (tick s) (autoVictims cfg s) := by
+    unfold preEvict performEviction
+    simp only [hE]
+  refine ⟨hiff, ?_, ?_⟩
+  · show (putCore cfg (tick s) k v short vs, Out.unit) = (putCore cfg (tick s) k v short (autoVictims cfg s), Out.unit)
+    unfold putCore; rw [hpre]
+  · show (putCore cfg (tick s) k v cfg.defaultShort vs, Out.unit) = (putCore cfg (tick s) k v cfg.defaultShort (autoVictims cfg s), Out.unit)
+    unfold putCore; rw [hpre]
+
+/-- the hypothesis is met with a list in another order than the model's own (two victims) -/
+example :
+    let cfg : Config := { maxEntries := 20, maxBytes := none, policy := .lru, defaultShort := false }
+    let ops : List XOp := (List.range 20).map (fun i => XOp.base (.put i [i] [])) ++ [.base (.get 0)]
+    let s := (xrun cfg xinit ops).s
+    autoVictims cfg s = [1, 2] ∧ victimsOk cfg.policy (tick s).store (evictN cfg (tick s)) [2, 1] = true := by decide +kernel
+
 end MemExt
 
 end Mem
@@ -541,30 +585,86 @@ example :
     revives 1 (.put 1 [9]) = true ∧ revives 1 .reopen = true := by decide
 
 /-- the old statement is the instance `ops = []` -/
-theorem disk_not_served_after_ttl_partial' (cfg : Config) (s : State) (k : Key) (v : Val) :
+theorem disk_not_served_after_ttl_nil (cfg : Config) (s : State) (k : Key) (v : Val) :
     (step cfg (putCore s k v true) (.get k)).2 = .got .miss :=
   (disk_not_served_after_ttl cfg s k v [] (fun _ h => by cases h)).1
 
-/-- **hit / miss figures of the disk cache**: for every history (re-creations included) the
-extended model's state is the core model's, `hit_count ≤ get_count`, and `stats()` reports the
-exact counters and these figures. -/
-theorem diskx_stats_exact (cfg : Config) (ops : List Op) :
+/-- **hit / miss figures and counters of the disk cache, with the cleanup task running**: for
+every history (re-creations and ticks of the background cleanup task included) the counters equal
+the index, `hit_count ≤ get_count`, and `stats()` reports the exact counters and these figures. -/
+theorem diskx_stats_exact (cfg : Config) (ops : List Disk.XOp) :
     let x := Disk.xrun cfg Disk.xinit ops
-    x.s = run cfg init ops ∧ x.m.hits ≤ x.m.gets ∧ 0 ≤ x.m.misses ∧
-    (Disk.xstep cfg x .stats).2 =
+    x.s.count = (x.s.index.length : Int) ∧ x.s.bytes = (sumBy DEntry.size x.s.index : Int) ∧
+    x.m.hits ≤ x.m.gets ∧ 0 ≤ x.m.misses ∧
+    (Disk.xstep cfg x (.base .stats)).2 =
       .stats x.s.index.length (sumBy DEntry.size x.s.index) x.m.gets x.m.hits ((x.m.gets - x.m.hits : Nat) : Int) := by
-  have hs := dxrun_s cfg ops Disk.xinit
   have hm := dmetrics_xrun cfg ops Disk.xinit (Nat.le_refl 0)
-  have hi := DiskCache.dinv_run cfg ops init DiskCache.dinv_init
-  refine ⟨hs, hm, ?_, ?_⟩
+  have hi := dinv_xrun cfg ops Disk.xinit DiskCache.dinv_init
+  refine ⟨hi.count, hi.bytes, hm, ?_, ?_⟩
   · unfold Metrics.misses; omega
   · show Disk.XOut.stats (Disk.xrun cfg Disk.xinit ops).s.count (Disk.xrun cfg Disk.xinit ops).s.bytes _ _ (Metrics.misses _) = _
-    rw [hs]
-    show Disk.XOut.stats (run cfg init ops).count (run cfg init ops).bytes _ _ _ = _
     rw [hi.count, hi.bytes]
     unfold Metrics.misses
     congr 1
     omega
+
+/-- **the background cleanup task of the disk cache (`new_with_background_tasks`, after the
+fix)**: after any history a tick of the task leaves the counters equal to the index and no
+indexed entry with an ended TTL, so `stats()` reports exactly the unexpired indexed entries. -/
+theorem disk_cleanup_exact (cfg : Config) (ops : List Disk.XOp) :
+    let x' := (Disk.xstep cfg (Disk.xrun cfg Disk.xinit ops) .cleanup).1
+    x'.s.count = (x'.s.index.length : Int) ∧ x'.s.bytes = (sumBy DEntry.size x'.s.index : Int) ∧
+    (∀ k e, lookup k x'.s.index = some e → e.short = false) ∧
+    x'.s.index.filter (fun p => p.2.short) = [] := by
+  have hi := dinv_xrun cfg ops Disk.xinit DiskCache.dinv_init
+  have hi' := dinv_cleanupTick hi
+  have hn := cleanupTick_noShort hi
+  refine ⟨hi'.count, hi'.bytes, ?_, ?_⟩
+  · intro k e hl
+    have := DiskCache.noShort_lookup hn hl
+    simpa using this
+  · rw [List.filter_eq_nil_iff]
+    intro p hp
+    unfold DiskCache.noShort at hn
+    rw [List.all_eq_true] at hn
+    have := hn p hp
+    simpa using this
+
+/-- `disk_not_served_after_ttl`, `disk_survives_reopen` and `disk_get_latest_put_any_instance`
+with ticks of the cleanup task anywhere in the history: an ended-TTL put stays a miss on its
+instance, a long-TTL put stays served (through re-creations too), and whatever is served is the
+latest put for that exact key. -/
+theorem diskx_ttl_and_survival (cfg : Config) (x : Disk.XState) (k : Key) (v : Val) (ops : List Disk.XOp) :
+    ((∀ op ∈ ops, xrevives k op = false) →
+      (Disk.xstep cfg (Disk.xrun cfg { x with s := putCore x.s k v true } ops) (.base (.get k))).2 = .base (.got .miss)) ∧
+    ((∀ op ∈ ops, xtouches k op = false) →
+      (Disk.xstep cfg (Disk.xrun cfg { x with s := putCore x.s k v false } ops) (.base (.get k))).2 = .base (.got (.hit v))) := by
+  constructor
+  · intro h
+    have hd := dead_xrun cfg ops { x with s := putCore x.s k v true } (dead_putCore x.s k v) h
+    show Disk.XOut.base (Out.got (Model.DiskCache.get _ k).2) = _
+    rw [(dead_get_out hd).1]
+  · intro h
+    have hk := kept_xrun cfg ops { x with s := putCore x.s k v false } (DiskCache.kept_putCore x.s k v) h
+    show Disk.XOut.base (Out.got (Model.DiskCache.get _ k).2) = _
+    rw [DiskCache.kept_get_out hk]
+
+theorem diskx_get_latest_put_any_instance (cfg : Config) (ops : List Disk.XOp) (k : Key) (v : Val)
+    (h : (Disk.xstep cfg (Disk.xrun cfg Disk.xinit ops) (.base (.get k))).2 = .base (.got (.hit v))) :
+    CacheMap.runLastPut CacheMap.empty (ops.map (Disk.absXOp cfg)) k = some v := by
+  have hl := last_xrun cfg ops Disk.xinit CacheMap.empty (fun _ _ hl => by cases hl)
+  have hg : (Model.DiskCache.get (Disk.xrun cfg Disk.xinit ops).s k).2 = .hit v := by
+    have h' : Disk.XOut.base (Out.got (Model.DiskCache.get (Disk.xrun cfg Disk.xinit ops).s k).2) = .base (.got (.hit v)) := h
+    injection h' with h'
+    injection h'
+  exact hl k v (DiskCache.get_hit_file hg)
+
+/-- the hypotheses of `diskx_ttl_and_survival` are met by a history with ticks and a re-creation -/
+example :
+    (∀ op ∈ ([.base (.put 2 [2]), .cleanup, .base (.get 1), .base (.remove 2), .cleanup, .base .clear] : List Disk.XOp),
+        xrevives 1 op = false) ∧
+    (∀ op ∈ ([.base (.putTtl 2 [2] true), .cleanup, .base .reopen, .cleanup, .base (.get 2)] : List Disk.XOp),
+        xtouches 1 op = false) := by decide
 
 end DiskExt
 
